@@ -75,6 +75,8 @@ def run(ctx, model):
         if i < 2:
             ctx.sample({"ops": [tr.op_sx(o)[:100] for o in ops], "frames": [f.hex()[:120] for f in impl["frames"][:4]]})
     tr.flush(ctx, model, tlines, tpend)
+    # ---- a long connected history across the wrap of the sequence counter
+    tr.run_c17(ctx, model, focus="C11")
 
 
 def replay(ctx, model, data):
